@@ -6,6 +6,7 @@ import (
 	"testing"
 
 	pipeline "github.com/buildkite/go-pipeline"
+	"github.com/buildkite/go-pipeline/ordered"
 	"gopkg.in/yaml.v3"
 	"pgregory.net/rapid"
 
@@ -95,11 +96,26 @@ func TestPropCanonicalSource(t *testing.T) {
 	ev.Check(t, 20000, 1000000, func(t *rapid.T) {
 		s := plug.Gen().Draw(t, "src")
 		var cfg any
-		switch rapid.IntRange(0, 3).Draw(t, "cfg") {
-		case 1:
+		// whatever the plugin is configured with, its identity is the canonical source: no config, a
+		// mapping, an empty mapping, a list, a bare scalar (`docker#v1: true`), typed and ordered maps
+		// as programs build them
+		switch rapid.IntRange(0, 11).Draw(t, "cfg") {
+		case 1, 2:
 			cfg = map[string]any{"image": "alpine", "n": 1}
-		case 2:
+		case 3:
 			cfg = map[string]any{}
+		case 4:
+			cfg = rapid.SampledFrom([]any{true, false, "always", "", 5, 0, 0.5}).Draw(t, "scalarcfg")
+		case 5:
+			cfg = []any{"a", 1}
+		case 6:
+			cfg = []any{}
+		case 7:
+			cfg = map[string]string{"image": "alpine"}
+		case 8:
+			cfg = ordered.MapFromItems(ordered.TupleSA{Key: "image", Value: "alpine"})
+		case 9:
+			cfg = map[string]any{"nested": map[string]any{"deep": []any{map[string]any{"k": nil}}}}
 		}
 		checkSource(t, s, cfg)
 		rec.Case(ev.HashStr(s.Text), s.Tricky, "class="+s.Class)
